@@ -72,6 +72,9 @@ def no_member_after_handler(run, ol, tag):
                   % sorted({q.render(ol, n) for n in late})[:4], 'nothing of *this is touched after the handler has been invoked')
 
 
+MOVED_OUT = set()
+
+
 def cancel_stops_timer_rule(run):
     """cancel() leaves nothing to wait for: with the queue emptied the internal timer is cancelled on every path - an armed
     timer nobody waits on keeps simulation::run() from returning until its (stale) expiry, and is a queue entry that a later
@@ -368,7 +371,13 @@ def check(run):
         tag = 'udp' if 'udp' in cn.name else 'tcp'
         sw = [c for c in cn.calls() if (c.get('callee') or '').split('::')[-1] == 'swap' and 'm_queue' in q.render(cn, c)]
         cancel_aborts_rule(run, cn, tag)
-        run.check(bool(sw) and q.on_all_paths(cn, sw), 'R2k', 'cancel-swaps', '%s<%s>' % (cn.norm, tag), cn.loc(), 'cancel() does not take the whole queue out before completing entries', 'm_queue.swap(local) first')
+        # the other way of taking everything out: move the queue into a local and clear the moved-from member
+        mv = [a.node for a in q.field_accesses(cn, {R + '::m_queue'}) if a.kind == 'move']
+        clr = [c for op, c in q.container_calls(cn, 'm_queue', {'clear'})]
+        moved_out = bool(mv) and q.on_all_paths(cn, mv) and bool(clr) and all(q.must_follow(cn, m_, clr) for m_ in mv)
+        if moved_out:
+            MOVED_OUT.add(cn.usr)
+        run.check(bool(sw) and q.on_all_paths(cn, sw) or moved_out, 'R2k', 'cancel-swaps', '%s<%s>' % (cn.norm, tag), cn.loc(), 'cancel() does not take the whole queue out before completing entries', 'm_queue.swap(local) first')
     # mutation kinds over the whole class
     KINDS = {R + '::async_resolve': {'push_front', 'push_back', 'insert'}, R + '::on_lookup': {'pop_front'}, R + '::cancel': {'swap'}}      # insert: at the position literal-in-time-order decides
     for fn in fx.repo_functions():
@@ -379,6 +388,7 @@ def check(run):
                 continue
             top = q.top_function(fx, fn).norm
             ok = a.kind == 'method' and a.site['k'] == 'call' and q.canon_op(fn, a.site) in KINDS.get(top, ()) or a.kind == 'refarg' and top == R + '::cancel' or fn.kind == 'ctor'
+            ok = ok or fn.usr in MOVED_OUT and (a.kind == 'move' or a.kind == 'method' and a.site['k'] == 'call' and q.canon_op(fn, a.site) == 'clear')
             run.check(ok, 'R2k', 'queue-ops', '%s: %s%s on m_queue' % (top, a.kind, ':' + a.method if a.method else ''), fn.loc(a.node), 'the lookup queue is mutated by %s in %s, outside the FIFO discipline' % (a.method or a.kind, top), 'allowed operation', nontrivial=False)
     # destructor (shared with C04)
     for rec in fx.record(R):
